@@ -77,13 +77,22 @@ where
                 let v_left = self.eval_const(left)?;
                 let v_right = self.eval_const(right)?;
                 if *op == Operator::And || *op == Operator::Or {
-                    // like at run time, the operands are converted to integers first
-                    let i_left = v_left
-                        .cast(TypeQualifier::PercentInteger)
-                        .map_err(|e| e.at(left))?;
-                    let i_right = v_right
-                        .cast(TypeQualifier::PercentInteger)
-                        .map_err(|e| e.at(right))?;
+                    // like at run time, the operands are converted to integers first,
+                    // or both to long if one of them does not fit an integer
+                    let (i_left, i_right) = match (
+                        v_left.clone().cast(TypeQualifier::PercentInteger),
+                        v_right.clone().cast(TypeQualifier::PercentInteger),
+                    ) {
+                        (Ok(i_left), Ok(i_right)) => (i_left, i_right),
+                        _ => (
+                            v_left
+                                .cast(TypeQualifier::AmpersandLong)
+                                .map_err(|e| e.at(left))?,
+                            v_right
+                                .cast(TypeQualifier::AmpersandLong)
+                                .map_err(|e| e.at(right))?,
+                        ),
+                    };
                     return (if *op == Operator::And {
                         i_left.and(i_right)
                     } else {
